@@ -385,16 +385,21 @@ class BaseGeo(BaseTransform):
                 label = add_iteration_suffix(label)
             obj_copy.style.label = label
         style_kwargs = {}
+        tree_kwargs = ("children", "sources", "sensors", "collections")
         for k, v in kwargs.items():
             if k.startswith("style"):
                 style_kwargs[k] = v
-            elif k != "parent":
+            elif k != "parent" and k not in tree_kwargs:
                 setattr(obj_copy, k, v)
         if style_kwargs:
             style_kwargs = self._process_style_kwargs(**style_kwargs)
             obj_copy.style.update(style_kwargs)
-        # the parent is assigned last: when one of the other inputs is rejected, the
-        # unfinished copy must not stay behind as a child of the given collection
+        # inputs that change the collection tree come last: when one of the other inputs
+        # is rejected, the given children must not have been taken out of their collection
+        # and the unfinished copy must not stay behind as a child of the given collection
+        for k, v in kwargs.items():
+            if k in tree_kwargs:
+                setattr(obj_copy, k, v)
         if "parent" in kwargs:
             obj_copy.parent = kwargs["parent"]
         return obj_copy
